@@ -16,7 +16,59 @@ pub struct Named {
     b: LTerm,
 }
 
-pub type LT = LTerm<DefaultUser, DefaultEngine<DefaultUser>>;
+/// The instrumented `User` type every harness run uses: it counts the constraint-lifecycle hook calls
+/// and the extensions passed to `process_extension`; it never changes the search (C22 observes it,
+/// every other property is indifferent to it).
+#[derive(Debug, Clone, Default)]
+pub struct CountUser {
+    pub withs: usize,
+    pub takes: usize,
+    pub ext_calls: usize,
+    pub ext_total: usize,
+}
+
+impl proto_vulcan::user::User for CountUser {
+    type UserTerm = ();
+    type UserContext = ();
+
+    fn process_extension<E: proto_vulcan::engine::Engine<Self>>(
+        mut state: proto_vulcan::state::State<Self, E>,
+        extension: &proto_vulcan::state::SMap<Self, E>,
+    ) -> proto_vulcan::state::SResult<Self, E> {
+        let n = extension.iter().count();
+        // every reported binding must be in force in the state the hook sees
+        for (k, _) in extension.iter() {
+            if state.smap_ref().walk(k) == k {
+                EXT_VIOLATION.with(|v| *v.borrow_mut() = Some("process_extension was given a binding that is not in the substitution".to_string()));
+            }
+        }
+        state.user_state.ext_calls += 1;
+        state.user_state.ext_total += n;
+        Ok(state)
+    }
+
+    fn with_constraint<E: proto_vulcan::engine::Engine<Self>>(
+        state: &mut proto_vulcan::state::State<Self, E>,
+        _constraint: &std::rc::Rc<dyn proto_vulcan::state::constraint::Constraint<Self, E>>,
+    ) {
+        state.user_state.withs += 1;
+    }
+
+    fn take_constraint<E: proto_vulcan::engine::Engine<Self>>(
+        state: &mut proto_vulcan::state::State<Self, E>,
+        _constraint: &std::rc::Rc<dyn proto_vulcan::state::constraint::Constraint<Self, E>>,
+    ) {
+        state.user_state.takes += 1;
+    }
+}
+
+thread_local! {
+    pub static EXT_VIOLATION: std::cell::RefCell<Option<String>> = std::cell::RefCell::new(None);
+}
+
+pub type DU = CountUser;
+pub type DE = DefaultEngine<CountUser>;
+pub type LT = LTerm<DU, DE>;
 
 pub const STRINGS: [&str; 3] = ["a", "bc", ""];
 
